@@ -51,6 +51,7 @@ type vcConn struct {
 	more    func(c *vcConn) // called when the script is exhausted and the client reads on: may append segments
 	// TLS markers (engine's transparent crypto/tls model): bytes written inside
 	// TLS are kept apart from bytes written to the raw connection
+	onClose    func() // called at the first Close
 	tls        bool
 	serverName string
 	tlsWrote   []byte
@@ -129,7 +130,13 @@ func (c *vcConn) Write(b []byte) (int, error) {
 	c.wrote = append(c.wrote, b...)
 	return len(b), nil
 }
-func (c *vcConn) Close() error                       { c.closed++; return nil }
+func (c *vcConn) Close() error {
+	c.closed++
+	if c.closed == 1 && c.onClose != nil {
+		c.onClose()
+	}
+	return nil
+}
 func (c *vcConn) LocalAddr() net.Addr                { return &net.TCPAddr{IP: net.IPv4(10, 0, 0, 2), Port: 4321} }
 func (c *vcConn) RemoteAddr() net.Addr               { return &net.TCPAddr{IP: net.IPv4(10, 0, 0, 1), Port: 80} }
 func (c *vcConn) SetDeadline(t time.Time) error      { return nil }
